@@ -131,7 +131,11 @@ func TestValueSemantics(t *testing.T) {
 		} else {
 			prog, feats = gen.Generate(t, gen.Config{MaxStmts: rapid.IntRange(3, 8).Draw(t, "size"), MaxDepth: 2, Funcs: 3, Structs: true, Bias: "heap"})
 		}
-		src := (&gen.Printer{}).Program(prog)
+		if rapid.IntRange(0, 3).Draw(t, "main-in-function") > 0 { // holders as locals of a function instead of globals
+			gen.WrapMain(prog)
+			feats["main-in-function"]++
+		}
+		src := (&gen.Printer{ParenPrint: rapid.IntRange(0, 7).Draw(t, "paren-print") > 0}).Program(prog)
 		out := ref.Run(prog)
 		if out.Budget || out.Unspecified != "" {
 			vf.Count("discard:unspecified-or-budget")
